@@ -50,3 +50,16 @@ pub open spec fn tm_some(rtext: &TextRef, qtext: &TextRef, ret: (Vec<WordMatch>,
     ((exists|j: int| #![trigger pair_prefix(rtext, qtext, j)] #![trigger pair_equal(rtext, qtext, j)] pair_prefix(rtext, qtext, j) || pair_equal(rtext, qtext, j)) ==> ret.0@.len() >= 1)
     && ((exists|j: int, p: int| #[trigger] pair_edit1(rtext, qtext, j, p)) ==> ret.0@.len() >= 1)
 }
+// ---- TM-first / TM-fin (C13, queries of several words).  TM-first: under the TM-some conditions the first query word itself is
+// matched.  TM-fin: a record-side match that is not marked finished comes with a query-side match of a query word that is not finished.
+pub open spec fn first_matched(qms: Seq<WordMatch>) -> bool { exists|b: int| 0 <= b < qms.len() && (#[trigger] qms[b]).offset == 0 }
+pub open spec fn tm_first(rtext: &TextRef, qtext: &TextRef, ret: (Vec<WordMatch>, Vec<WordMatch>)) -> bool {
+    ((exists|j: int| #![trigger pair_prefix(rtext, qtext, j)] #![trigger pair_equal(rtext, qtext, j)] pair_prefix(rtext, qtext, j) || pair_equal(rtext, qtext, j)) ==> first_matched(ret.1@))
+    && ((exists|j: int, p: int| #[trigger] pair_edit1(rtext, qtext, j, p)) ==> first_matched(ret.1@))
+}
+pub open spec fn unfin_match(qtext: &TextRef, qms: Seq<WordMatch>) -> bool {
+    exists|b: int| 0 <= b < qms.len() && (#[trigger] qms[b]).offset < qtext.words@.len() && !qtext.words@[qms[b].offset as int].fin
+}
+pub open spec fn tm_fin(qtext: &TextRef, ret: (Vec<WordMatch>, Vec<WordMatch>)) -> bool {
+    forall|a: int| 0 <= a < ret.0@.len() && !(#[trigger] ret.0@[a]).fin ==> unfin_match(qtext, ret.1@)
+}
